@@ -105,8 +105,12 @@ pub fn exec(ctx: &mut Ctx, line: &str, rec: &mut Recorder) {
         }
         Some("begin") => {
             if let ["begin", "mux", tmo, m, st, ..] = t.as_slice() {
-                if let (Ok(tmo), Ok(m), Some(st)) = (tmo.parse::<u64>(), m.parse::<usize>(), match *st { "0" => Some(false), "1" => Some(true), _ => None }) {
-                    ctx.mux = Some(mux::MuxRun::new(tmo, m, st));
+                if let (Ok(tmo), Ok(m), Some(st)) = (tmo.parse::<u64>(), m.parse::<usize>(), match *st { "0" | "0s" => Some(false), "1" | "1s" => Some(true), _ => None }) {
+                    let signer = t[4].ends_with('s');
+                    if signer {
+                        rec.stat("mux.block.with_signer");
+                    }
+                    ctx.mux = Some(mux::MuxRun::new(tmo, m, st, signer));
                     ctx.begin_idx = rec.case(line.to_string(), "ok".into());
                     ctx.ops = 0;
                     rec.stat("op.mux.begin");
@@ -149,8 +153,11 @@ pub fn exec(ctx: &mut Ctx, line: &str, rec: &mut Recorder) {
                     rec.stat(&format!("op.mux.{}", t[0]));
                     let kind = so.out.split(' ').next().unwrap_or("");
                     rec.stat(&format!("mux.{}.{}", t[0], kind));
-                    if t[0] == "send" && t.len() == 3 {
+                    if t[0] == "send" && t.contains(&"e") {
                         rec.stat("mux.send.request-does-not-encode");
+                    }
+                    if t[0] == "send" && t.contains(&"x") {
+                        rec.stat("mux.send.axfr-question");
                     }
                     if t[0] == "deliver" {
                         rec.stat(&format!("mux.deliver.kind.{}", &t[1][..1]));
@@ -364,6 +371,9 @@ fn exec_udp(line: &str, t: &[&str], rec: &mut Recorder) {
     if c.unencodable {
         rec.stat("udp.request-does-not-encode");
     }
+    if c.signer {
+        rec.stat(&format!("udp.with_signer.request-{}", if c.qs.iter().any(|q| q.qtype == 252 || q.qtype == 251) { "signed" } else { "not-signed(no AXFR/IXFR question)" }));
+    }
     if !run.all_sent_to_server {
         rec.fail(idx, "a transmission went to an address other than the queried server", "");
     }
@@ -398,7 +408,7 @@ fn gen_q(r: &mut Rng) -> Q {
     let n = r.range(1, 4) as usize;
     Q {
         labels: (0..n).map(|_| gen_label(r)).collect(),
-        qtype: *r.pick(&[1u16, 1, 1, 28, 15, 16, 2, 6, 255, 65, 12345]),
+        qtype: *r.pick(&[1u16, 1, 1, 28, 15, 16, 2, 6, 255, 65, 12345, 252, 251]),
         qclass: *r.pick(&[1u16, 1, 1, 1, 3, 255, 4000]),
     }
 }
@@ -585,6 +595,7 @@ fn gen_udp(r: &mut Rng) -> UdpCase {
         ctor,
         via_exchange: r.chance(1, 4),
         unencodable: ctor != 'f' && r.chance(1, 40),
+        signer: r.chance(1, 6),
         qs: (0..nq).map(|_| gen_q(r)).collect(),
         scripts: vec![],
         setups: vec![],
@@ -643,7 +654,7 @@ fn gen_udp(r: &mut Rng) -> UdpCase {
             match r.below(6) {
                 0 | 1 => udp::Setup { bind: udp::Bind::InUse(n), send: udp::SendMode::Ok },
                 2 => udp::Setup { bind: udp::Bind::Denied(n), send: udp::SendMode::Ok },
-                3 => udp::Setup { bind: udp::Bind::Other, send: udp::SendMode::Ok },
+                3 => udp::Setup { bind: if r.chance(1, 2) { udp::Bind::Other } else { udp::Bind::Slow }, send: udp::SendMode::Ok },
                 4 => udp::Setup { bind: udp::Bind::Ok, send: udp::SendMode::Err },
                 _ => udp::Setup { bind: if r.chance(1, 3) { udp::Bind::InUse(3) } else { udp::Bind::Ok }, send: udp::SendMode::Short },
             }
@@ -664,12 +675,13 @@ fn mux_block(r: &mut Rng, ctx: &mut Ctx, rec: &mut Recorder, serial: usize) {
         1 => (r.range(34, 40) as usize, true), // stalled writer: the outbound buffer fills
         _ => (32, false),
     };
-    exec(ctx, &format!("begin mux {timeout} {max_active} {} #{serial}", b(stalled)), rec);
+    let signer = r.chance(1, 6);
+    exec(ctx, &format!("begin mux {timeout} {max_active} {}{} #{serial}", b(stalled), if signer { "s" } else { "" }), rec);
     let mut next_k = 0usize;
     let mut enc = r.fork();
     let mut send = |ctx: &mut Ctx, rec: &mut Recorder, next_k: &mut usize| {
         // now and then a request that does not encode: error stream, nothing registered
-        exec(ctx, &format!("send {}{}", *next_k, if enc.chance(1, 25) { " e" } else { "" }), rec);
+        exec(ctx, &format!("send {}{}{}", *next_k, if enc.chance(1, 25) { " e" } else { "" }, if enc.chance(1, 4) { " x" } else { "" }), rec);
         *next_k += 1;
     };
     match scenario {
@@ -922,6 +934,7 @@ fn udp_enumerate(ctx: &mut Ctx, rec: &mut Recorder, len: usize) {
         ctor,
         via_exchange: false,
         unencodable: false,
+        signer: false,
         qs,
         scripts: vec![sc],
         setups: vec![],
@@ -954,6 +967,7 @@ fn udp_enumerate(ctx: &mut Ctx, rec: &mut Recorder, len: usize) {
             sus.push(Setup { bind: Bind::Denied(n), send: SendMode::Ok });
         }
         sus.push(Setup { bind: Bind::Other, send: SendMode::Ok });
+        sus.push(Setup { bind: Bind::Slow, send: SendMode::Ok });
         sus.push(Setup { bind: Bind::Ok, send: SendMode::Err });
         sus.push(Setup { bind: Bind::Ok, send: SendMode::Short });
         sus.push(Setup { bind: Bind::InUse(11), send: SendMode::Short });
@@ -971,6 +985,23 @@ fn udp_enumerate(ctx: &mut Ctx, rec: &mut Recorder, len: usize) {
                 case.scripts.push(vec![kinds[0].clone()]);
                 case.setups = vec![Setup::default(), su, Setup::default()];
                 exec(ctx, &udp::case_line(&case), rec);
+            }
+        }
+        // a TSIG signer: an AXFR question is signed (the unsigned reply then fails verification), an A question is not
+        let qx = Q { labels: q.labels.clone(), qtype: 252, qclass: 1 };
+        for (asked, section) in [(q.clone(), q.clone()), (qx.clone(), qx.clone()), (qx.clone(), Q { labels: ql.labels.clone(), qtype: 252, qclass: 1 })] {
+            for case_rand in [false, true] {
+                for via in [false, true] {
+                    for pre in [None, Some(kinds[4].clone()), Some(kinds[1].clone())] {
+                        let mut sc: Vec<Ev> = pre.into_iter().collect();
+                        sc.push(d(server, 4660, true, vec![section.clone()]));
+                        sc.push(d(server, 4660, true, vec![asked.clone()]));
+                        let mut case = base(case_rand, 'n', vec![asked.clone()], sc);
+                        case.via_exchange = via;
+                        case.signer = true;
+                        exec(ctx, &udp::case_line(&case), rec);
+                    }
+                }
             }
         }
         for ctor in ['n', 'o', 'm'] {
